@@ -59,6 +59,11 @@ func newBucket(rootPath string, symlinks bool) (*bucket, error) {
 }
 
 func (b *bucket) Get(ctx context.Context, path string) (storage.ReadObjectCloser, error) {
+	// The path of the returned object is always normalized, whatever the spelling given.
+	path, err := storageutil.ValidatePath(path)
+	if err != nil {
+		return nil, err
+	}
 	externalPath, err := b.getExternalPath(path)
 	if err != nil {
 		return nil, err
@@ -86,6 +91,11 @@ func (b *bucket) Get(ctx context.Context, path string) (storage.ReadObjectCloser
 }
 
 func (b *bucket) Stat(ctx context.Context, path string) (storage.ObjectInfo, error) {
+	// The path of the returned object is always normalized, whatever the spelling given.
+	path, err := storageutil.ValidatePath(path)
+	if err != nil {
+		return nil, err
+	}
 	externalPath, err := b.getExternalPath(path)
 	if err != nil {
 		return nil, err
